@@ -41,7 +41,7 @@ def tlc_sets(tier):
 
 def bound(tier):
     q = tier == "quick"
-    return dict(starting_epoch=[0, 2 if q else 3], epochs=[0, 2 if q else 3], N=[1, 3], pos_batch_size=[1, 2, 4],
+    return dict(starting_epoch=[0, 2 if q else 3], epochs=[0, 2 if q else 3], N=[1, 3], pos_batch_size=[1, 2, 4], neg_batch_size="default; {1,2,3} != pos for N=3",
                 callback_lists=["[R]", "[R,S]", "[S,R]", "[R1,S,R2]", "[Lambda-recorder,S]"], timer=[False, True],
                 stop="none; pre-set; one request at every event of the run (every callback position)", kinds="positive full grid; complex/mixed N<=2",
                 tlc_constant_sets=[list(c) for c in tlc_sets(tier)], tlc_invariants=INVARIANTS)
@@ -62,6 +62,11 @@ def plan(tier, seed):
                                 if timer and cbl in ("R", "LS") and tier == "quick":
                                     continue
                                 cfgs.append(dict(kind=kind, e0=e0, E=E, N=N, pb=pb, cbl=cbl, timer=timer))
+                                if cbl == "RS" and not timer and N == 3 and pb in (1, 2):
+                                    # the number of batches is ceil(N / pos_batch_size) whatever the negative batch size
+                                    for negb in (1, 2, 3):
+                                        if negb != pb:
+                                            cfgs.append(dict(kind=kind, e0=e0, E=E, N=N, pb=pb, cbl=cbl, timer=timer, negb=negb))
     items = [dict(layer="tlc", E0=e0, E=E, NB=nb) for (e0, E, nb) in tlc_sets(tier)]
     items += [dict(layer="py", configs=cfgs[j:j + 10]) for j in range(0, len(cfgs), 10)]
     return items
@@ -145,6 +150,8 @@ def run_fit(cfg, tape, pre=False):
     out = []
     try:
         with env, contextlib.redirect_stdout(io.StringIO()):
+            if cfg.get("negb"):
+                kw["neg_batch_size"] = cfg["negb"]
             call(st.fit, data, epochs=E, starting_epoch=e0, pos_batch_size=pb, time=cfg.get("timer", False), callbacks=cbs, **kw)
     except LibRaised as e:
         return [(f"protocol:fit-raised:{e.kind}", dict(tb=e.tb))], None, 0
@@ -301,7 +308,7 @@ def replay(case):
         cfg = dict(kind="positive", e0=e0, E=E, N=nb, pb=1, cbl="SR", timer=False)
         pre = len(case.get("trace", [1])) == 0
     else:
-        cfg = {k: case[k] for k in ("kind", "e0", "E", "N", "pb", "cbl", "timer")}
+        cfg = {k: case[k] for k in ("kind", "e0", "E", "N", "pb", "cbl", "timer", "negb") if k in case}
         pre = case.get("pre", False)
     viols, tr, nev = run_fit(cfg, T.Tape(case["tape"]), pre)
     acc.ev(1)
